@@ -58,10 +58,13 @@ Record sreq := {
 }.
 Definition sreq0 : sreq := {| sr_form := []; sr_ordered := []; sr_merged := []; sr_body := false; sr_snap := 0 |}.
 
-Record sstate := { ss_client : form; ss_reqs : list sreq; ss_cell : N }.
+(* ss_client: the form data of every client of the session (client 0, then the clones in the order
+   they were made); ss_owner: the client each request was created from *)
+Record sstate := { ss_client : list form; ss_reqs : list sreq; ss_cell : N; ss_owner : list nat }.
 
 Inductive sop :=
-| SClientAdd (f : form)                 (* Client.SetCommonFormDataFromValues *)
+| SClientAdd (c : nat) (f : form)       (* client c: SetCommonFormDataFromValues *)
+| SClone (c : nat)                      (* client c: Clone() - the clone is the next client of the session *)
 | SReqAdd (i : nat) (f : form)          (* R_i.SetFormDataFromValues(values as they are at the call) *)
 | SReqSet (i : nat) (k v : bytes)       (* R_i.SetFormData{k: v} *)
 | SReqOrdered (i : nat) (kvs : list bytes)
@@ -112,38 +115,43 @@ Definition emit (i : nat) (r : sreq) : sout :=
   | FNone => if sr_body r then OutMarshal i (sr_snap r) else OutNone i
   end.
 
+(* the client-level form data that apply to request i: those of the client it was created from *)
+Definition client_of (s : sstate) (i : nat) : form := nth (nth i (ss_owner s) 0) (ss_client s) [].
+
 Definition sstep (s : sstate) (o : sop) : sstate * list sout :=
   match o with
-  | SClientAdd f => ({| ss_client := merge_form (ss_client s) f; ss_reqs := ss_reqs s; ss_cell := ss_cell s |}, [])
+  | SClientAdd c f => ({| ss_client := upd c (fun m => merge_form m f) (ss_client s); ss_reqs := ss_reqs s; ss_cell := ss_cell s; ss_owner := ss_owner s |}, [])
+  | SClone c => ({| ss_client := ss_client s ++ [nth c (ss_client s) []]; ss_reqs := ss_reqs s;
+                    ss_cell := ss_cell s; ss_owner := ss_owner s |}, [])
   | SReqAdd i f =>
-      ({| ss_client := ss_client s; ss_reqs := upd i (on_form (fun m => merge_form m f)) (ss_reqs s); ss_cell := ss_cell s |}, [])
+      ({| ss_client := ss_client s; ss_reqs := upd i (on_form (fun m => merge_form m f)) (ss_reqs s); ss_cell := ss_cell s; ss_owner := ss_owner s |}, [])
   | SReqSet i k v =>
-      ({| ss_client := ss_client s; ss_reqs := upd i (on_form (set_value k v)) (ss_reqs s); ss_cell := ss_cell s |}, [])
+      ({| ss_client := ss_client s; ss_reqs := upd i (on_form (set_value k v)) (ss_reqs s); ss_cell := ss_cell s; ss_owner := ss_owner s |}, [])
   | SReqOrdered i kvs =>
       ({| ss_client := ss_client s;
           ss_reqs := upd i (fun r => {| sr_form := sr_form r; sr_ordered := sr_ordered r ++ kvs;
                                         sr_merged := sr_merged r; sr_body := sr_body r; sr_snap := sr_snap r |}) (ss_reqs s);
-          ss_cell := ss_cell s |}, [])
+          ss_cell := ss_cell s; ss_owner := ss_owner s |}, [])
   | SReqBody i =>
       ({| ss_client := ss_client s;
           ss_reqs := upd i (fun r => {| sr_form := sr_form r; sr_ordered := sr_ordered r;
                                         sr_merged := sr_merged r; sr_body := true; sr_snap := sr_snap r |}) (ss_reqs s);
-          ss_cell := ss_cell s |}, [])
-  | SCellSet v => ({| ss_client := ss_client s; ss_reqs := ss_reqs s; ss_cell := v |}, [])
+          ss_cell := ss_cell s; ss_owner := ss_owner s |}, [])
+  | SCellSet v => ({| ss_client := ss_client s; ss_reqs := ss_reqs s; ss_cell := v; ss_owner := ss_owner s |}, [])
   | SSend i =>
-      let r := prepare (ss_client s) (ss_cell s) (nth i (ss_reqs s) sreq0) in
-      ({| ss_client := ss_client s; ss_reqs := upd i (fun _ => r) (ss_reqs s); ss_cell := ss_cell s |},
+      let r := prepare (client_of s i) (ss_cell s) (nth i (ss_reqs s) sreq0) in
+      ({| ss_client := ss_client s; ss_reqs := upd i (fun _ => r) (ss_reqs s); ss_cell := ss_cell s; ss_owner := ss_owner s |},
        [emit i r])
   | SSendQuiet i =>
-      let r := prepare (ss_client s) (ss_cell s) (nth i (ss_reqs s) sreq0) in
-      ({| ss_client := ss_client s; ss_reqs := upd i (fun _ => r) (ss_reqs s); ss_cell := ss_cell s |}, [])
+      let r := prepare (client_of s i) (ss_cell s) (nth i (ss_reqs s) sreq0) in
+      ({| ss_client := ss_client s; ss_reqs := upd i (fun _ => r) (ss_reqs s); ss_cell := ss_cell s; ss_owner := ss_owner s |}, [])
   | SSendRetry i v =>
-      let r := prepare (ss_client s) (ss_cell s) (nth i (ss_reqs s) sreq0) in
-      ({| ss_client := ss_client s; ss_reqs := upd i (fun _ => resnap v r) (ss_reqs s); ss_cell := v |},
+      let r := prepare (client_of s i) (ss_cell s) (nth i (ss_reqs s) sreq0) in
+      ({| ss_client := ss_client s; ss_reqs := upd i (fun _ => resnap v r) (ss_reqs s); ss_cell := v; ss_owner := ss_owner s |},
        [emit i r; emit i (resnap v r)])
   | SBegin i =>
-      let r := prepare (ss_client s) (ss_cell s) (nth i (ss_reqs s) sreq0) in
-      ({| ss_client := ss_client s; ss_reqs := upd i (fun _ => r) (ss_reqs s); ss_cell := ss_cell s |}, [])
+      let r := prepare (client_of s i) (ss_cell s) (nth i (ss_reqs s) sreq0) in
+      ({| ss_client := ss_client s; ss_reqs := upd i (fun _ => r) (ss_reqs s); ss_cell := ss_cell s; ss_owner := ss_owner s |}, [])
   | SFinish i => (s, [emit i (nth i (ss_reqs s) sreq0)])
   end.
 
@@ -153,5 +161,5 @@ Fixpoint srun (s : sstate) (ops : list sop) : list sout :=
   | o :: t => let '(s', out) := sstep s o in out ++ srun s' t
   end.
 
-Definition sinit (nreq : nat) : sstate :=
-  {| ss_client := []; ss_reqs := repeat sreq0 nreq; ss_cell := 0 |}.
+Definition sinit (owners : list nat) : sstate :=
+  {| ss_client := [[]]; ss_reqs := repeat sreq0 (length owners); ss_cell := 0; ss_owner := owners |}.
